@@ -33,6 +33,11 @@ def gather(ctx, modes, lattice=True):
             jobs.append({"script": "d_layout.py", "stdin_obj": {
                 "seed": ctx.seed * 100003 + k * 101 + sum(map(ord, m)), "mode": m, "count": cnt // core.NCPU}})
             tags.append(m)
+    # inputs of known findings are replayed on every run (F-01: two stubs around a narrow label, nodeSpacing 0)
+    jobs.append({"script": "d_layout.py", "stdin_obj": {"seed": 0, "mode": "instances", "instances": [
+        {"labels": [[3, 2], [3, 0.5], [3, 0.5], [6, 2]],
+         "opts": {"nodeSpacing": 0, "minPos": 0, "maxPos": 4, "density": 1, "stubWidth": 2.5, "algorithm": "simple"}}]}})
+    tags.append("pinned")
     errors = []
     for tag, out in zip(tags, core.run_drivers_parallel(jobs)):
         for r in out["records"]:
